@@ -121,10 +121,12 @@ def _work(job):
     depths = list(range(0, 7)) if tier == "quick" else list(range(0, 9))
     pix = [1, 3, 6]
     for k, (kind, lon, lat) in enumerate(pts):
+        # which points get the (slow) pixel lookups depends on the point, not on the seed-dependent order
+        sel = (int(round(lon * 1e6)) + 3 * int(round(lat * 1e6))) % 4
         if tier == "thorough":
-            pd = pix if k % 4 == 0 else []
+            pd = pix if sel == 0 else []
         else:
-            pd = pix if k % 2 == 0 else [3]
+            pd = pix if sel in (0, 2) else [3]
         check_point(kind, lon, lat, depths, pd, planetary, part)
         if k == 3:
             part.sample({"lon": lon, "lat": lat, "kind": kind, "coordsys": "planetary" if planetary else "astronomical", "depths": depths})
